@@ -73,10 +73,11 @@ CLAIMS = {
         text='Develop and release mode: for every history of three generations in which an arbitrary subset of three variants of a recipe (plus a second recipe with identical Variant-Ids and a prefix-related name) '
              'exists, in any traversal order: two steps share a directory only if they are the same (recipe, step kind, Variant-Id) (release: same Variant-Id), a variant that still exists keeps its directory, '
              'directories lie below the formatter base directory. bob clean (develop): for every combination of existing directories, matching/stale stored digests, dirty sources and flags -s/-f/--dry-run it never '
-             'deletes an up-to-date build/package result or a source workspace of a current package (also when two recipes yield identical packages), and --dry-run deletes nothing.',
+             'deletes an up-to-date build/package result or a source workspace of a current package (also when two recipes yield identical packages), and --dry-run deletes nothing. '
+             'World histories: real build (develop/release), one of 13 edits, real build (develop/release, optionally --resume), real bob clean in 5 flavours: results equal a clean build and a rebuild afterwards executes nothing '
+             '(in the other mode too if nothing was edited).',
         design_ref='DESIGN.md section 4, C16',
-        note='Trusted: stub packages/steps, dictionary-backed BobState in the clean check. Outside: "a directory handed to a different variant is emptied first" (builder prune branch, part of the C01 world harness), '
-             'release-mode clean, attic mode, external name persisters.'),
+        note='Trusted: stub packages/steps, dictionary-backed BobState in the clean check. Outside: attic mode, external name persisters. "A directory handed to a different variant is emptied first" is decided by the residue check of the C01 / C16 world histories.'),
     'C19': dict(
         engine='X',
         technique='CrossHair+z3 enumeration of archive contents / histories through the real bob archive clean/find code paths (real grammar, real sqlite index) against a reference retention semantics',
